@@ -294,6 +294,8 @@ class TlSchemas:
                     if 'vector' in type_:
                         length = int.from_bytes(data[i:i + 4], 'little', signed=False)
                         i += 4
+                        if length > len(data) - i:
+                            raise TlError(f'vector length {length} exceeds the remaining {max(len(data) - i, 0)} bytes')
                         result[field] = []
                         for _ in range(length):
                             if sch:
